@@ -340,6 +340,12 @@ func universes(thorough bool) []*universe {
 	lc.LBClass = "x"
 	us = append(us, lc)
 
+	// one address, two services, every way a service gives its address up while the other waits (type change, request
+	// moved outside the pools, deletion): small enough for the fault menu at full depth
+	us = append(us, mkUniverse("release", ns12[:1], [][]metallbv1beta1.IPAddressPool{{mkPool("a", []string{"10.0.0.0/32"}, nil)}, restartLayouts[2]}, slots3[:2],
+		[]namedVariant{{"p80", mkSvc()}, {"p80-clusterip", mkSvc(clusterIPType())}, {"p80-ip0", mkSvc(lbIP("10.0.0.0"))}, {"p80-ip-outside", mkSvc(lbIP("172.16.0.1"))},
+			{"p443-k1", mkSvc(ports(443), share("k1"))}}, nil))
+
 	us = append(us, mkUniverse("reconf", ns12, reLayouts, []slotT{{"ns1", "s1"}, {"ns1", "s2"}, {"ns2", "s3"}}, reVs, map[int][]int{2: {0, 2}}))
 	return us
 }
